@@ -28,7 +28,7 @@ BOUND = {
     "thorough": "all subsets of size <=3 of the full grid x 3 default languages; all subsets of size 4 of the core grid x 3 default languages",
 }
 # as-built additions to the bound (kept next to BOUND so that the evidence reports them)
-BOUND = {k: v + "; plus: " + '13 other row kinds (hidden calculations, repeats, label-less containers, rank, range, ...) x cell subsets <=2 (thorough <=3) of 7 columns x 3 languages; two choice lists with every mix of translated / partly translated / label-less / media-only choices in either sheet order; both left-to-right column orders; language tags differing only in case (core grid, subsets <=2 / <=3); noAppErrorString cells; search() select; label-less choices; keyword-bearing element names; OSM tags with (un)translated labels' for k, v in BOUND.items()}
+BOUND = {k: v + "; plus: " + 'object API: generate, add an itext-needing element (5 kinds, top / nested), generate again; names with a namespace prefix; 13 other row kinds (hidden calculations, repeats, label-less containers, rank, range, ...) x cell subsets <=2 (thorough <=3) of 7 columns x 3 languages; two choice lists with every mix of translated / partly translated / label-less / media-only choices in either sheet order; both left-to-right column orders; language tags differing only in case (core grid, subsets <=2 / <=3); noAppErrorString cells; search() select; label-less choices; keyword-bearing element names; OSM tags with (un)translated labels' for k, v in BOUND.items()}
 DEFLANGS = [None, "en", "zz"]
 
 
@@ -53,6 +53,7 @@ def blocks(tier):
         yield ("free-row", rk)
     yield ("free-lists", 0)
     yield ("free-lists", 1)
+    yield ("api",)
     for k in ((1, 2) if tier == "quick" else (1, 2, 3)):
         for first in range(core - k + 1):
             yield ("names", k, first)
@@ -90,6 +91,10 @@ FREE_ROWS = {
     "image": [{"type": "image", "name": "k"}],
     "acknowledge": [{"type": "acknowledge", "name": "k"}],
     "select-file": [{"type": "select_one_from_file f.csv", "name": "k"}],
+    # names with a namespace prefix (declared in the settings): the text id holds more than one colon
+    "ns-text": [{"type": "text", "name": "ex:k"}],
+    "ns-group": [{"type": "begin group", "name": "ex:g", "label": "G"}, {"type": "text", "name": "k"}, {"type": "end group"}],
+    "ns-repeat-select": [{"type": "begin repeat", "name": "ex:r", "label": "R"}, {"type": "select_one c", "name": "ex:k"}, {"type": "end repeat"}],
 }
 FREE_COLS = ["label", "hint", "guidance_hint", "constraint_message", "required_message", "image", "audio"]
 FREE_LANGS = ["", "en", "fr"]
@@ -125,7 +130,7 @@ def build_free(case):
     choices = [{"list_name": "c", "name": "x", "label": "X"}, {"list_name": "c", "name": "y", "label": "Y"}]
     if f["k"] == "row":
         body = [dict(r) for r in FREE_ROWS[f["rk"]]]
-        row = body[0]
+        row = next(r for r in body if r.get("name", "").endswith("k"))
         for c, l in f["cells"]:
             v = f"k.{c}.{l or '0'}" + (".png" if c == "image" else ".mp3" if c == "audio" else "")
             if case["ref"] and c in ("label", "hint", "constraint_message", "required_message"):
@@ -138,7 +143,10 @@ def build_free(case):
         rows += body
         if f["extra"]:
             rows.append({"type": "text", "name": "t", "label::en": "T", "label::fr": "Tf"})
-        return {"survey": rows, "choices": choices}
+        wb = {"survey": rows, "choices": choices}
+        if f["rk"].startswith("ns-"):
+            wb["settings"] = [{"namespaces": 'ex="http://ex.example/ns"'}]
+        return wb
     lists = {}
     for ln, states in (("c", f["c"]), ("d", f["d"])):
         out = []
@@ -155,6 +163,44 @@ def build_free(case):
     choices = lists["c"] + lists["d"] if f["order"] == 0 else lists["d"] + lists["c"]
     rows += [{"type": "select_one c", "name": "sc", "label::en": "SC", "label::fr": "SCf"}, {"type": "select_multiple d", "name": "sd", "label::en": "SD", "label::fr": "SDf"}]
     return {"survey": rows, "choices": choices}
+
+
+# one survey object: generate, add an element that needs itext, generate again - the second XForm is closed as well
+API_FORMS = {
+    "mono": {"survey": [{"type": "text", "name": "a", "label": "A"}, {"type": "begin group", "name": "g", "label": "G"}, {"type": "text", "name": "b", "label": "B"}, {"type": "end group"}]},
+    "tr": {"survey": [{"type": "text", "name": "a", "label::en": "A", "label::fr": "Af"}, {"type": "begin group", "name": "g", "label::en": "G", "label::fr": "Gf"},
+                      {"type": "select_one c", "name": "b", "label::en": "B", "label::fr": "Bf"}, {"type": "end group"}],
+           "choices": [{"list_name": "c", "name": "x", "label::en": "X", "label::fr": "Xf"}]},
+}
+API_MUTS = {
+    "translated-question": {"type": "text", "name": "nq", "label": {"en": "N", "fr": "Nf"}},
+    "translated-hint-media": {"type": "text", "name": "nq", "label": "N", "hint": {"en": "H"}, "media": {"image": {"fr": "n.png"}}},
+    "translated-message": {"type": "integer", "name": "nq", "label": "N", "bind": {"constraint": ". > 0", "jr:constraintMsg": {"en": "M", "fr": "Mf"}}},
+    "message-with-reference": {"type": "integer", "name": "nq", "label": "N", "bind": {"required": "yes", "jr:requiredMsg": "R ${a}"}},
+    "guidance": {"type": "text", "name": "nq", "label": "N", "guidance_hint": "GH"},
+}
+
+
+def check_api(case):
+    import copy
+
+    from pyxform.builder import create_survey_element_from_dict
+    from pyxform.xls2xform import convert
+
+    a = case["api"]
+    try:
+        sv = convert(copy.deepcopy(API_FORMS[a["form"]]))._survey
+        if a["first"] != "none":
+            sv.to_xml(validate=False, pretty_print=a["first"] == "pretty")
+        target = sv if a["where"] == "top" else next(c for c in sv.children if c.name == "g")
+        target.add_child(create_survey_element_from_dict(copy.deepcopy(API_MUTS[a["mut"]])))
+        x = sv.to_xml(validate=False, pretty_print=False)
+    except Exception as e:  # noqa: BLE001 - the object API may refuse an edit: no verdict about closure
+        return {"outcome": "api-refused", "nt": False, "viol": [], "tr": 3, "why": f"{type(e).__name__}: {e}"[:120]}
+    obs = O.Obs(x)
+    pr, nlang, nrefs = invariant_problems(obs, x, None)
+    pr = [(f"{sig}:api:{a['mut']}", det) for sig, det in pr]
+    return {"outcome": "ok", "nt": a["first"] != "none" and not pr, "viol": pr, "tr": 4}
 
 
 def contexts(case):
@@ -180,6 +226,13 @@ def expand(block, tier):
                 for extra in [None, *core]:
                     for dl in DEFLANGS[:2]:
                         yield {"cells": [list(extra)] if extra else [], "dl": dl, "ref": ref, "napp": list(ls), "rev": bool(len(ls) % 2)}
+        return
+    if block[0] == "api":
+        for form in API_FORMS:
+            for first in ("compact", "pretty", "none"):
+                for mut in API_MUTS:
+                    for where in ("top", "nested"):
+                        yield {"api": {"form": form, "first": first, "mut": mut, "where": where}, "cells": [], "dl": None, "ref": False}
         return
     if block[0] == "free-row":
         yield from gen_free_rows(block[1], tier)
@@ -317,6 +370,8 @@ def build_osm(o):
 
 
 def check_one(case):
+    if case.get("api"):
+        return check_api(case)
     if case.get("free"):
         wb, kw = build_free(case), {}
     else:
